@@ -54,3 +54,156 @@ var ParseFamilies = []Family{
 	{"sdl-location-flood", true, func(n int) string { return "directive @d on " + rep("FIELD|", n) + "FIELD" }},
 	{"sdl-unclosed-args", true, func(n int) string { return "type A{f" + rep("(a:Int=[", n) }},
 }
+
+// ValidFamilies: size-parametrised documents against ValidSchemas[0], aimed at the validator.
+// Make(n) has Θ(n) bytes (Θ(n·log n) for numbered names).
+var ValidFamilies = []Family{
+	{"frag-fanout", false, func(n int) string { return "query Q { ...F0 } " + fanout(n, "Query", "id") }},
+	{"frag-fanout-introspection", false, func(n int) string { return "query Q { __schema { types { ...F0 } } } " + fanout(n, "__Type", "name") }},
+	{"frag-fanout-introspection-deep", false, func(n int) string {
+		return "query Q { __schema { types { ...F0 } } } " + fanoutVia(n, "__Type", "fields { type {", "} }", "name")
+	}},
+	{"frag-fanout-subscription", false, func(n int) string { return "subscription S { ...F0 } " + fanout(n, "Subscription", "tick") }},
+	{"frag-fanout-overlap", false, func(n int) string { return "query Q { pet { ...F0 } pet { ...F0 } } " + fanout(n, "Pet", "id") }},
+	{"frag-fanout-overlap-conflict", false, func(n int) string {
+		return "query Q { pet { ...F0 n: name } pet { ...F0 n: nick } } " + fanout(n, "Pet", "id")
+	}},
+	{"frag-fanout-variables", false, func(n int) string {
+		return "query Q($v: Int) { ...F0 } " + fanout(n, "Query", "search(n: $v) { __typename }")
+	}},
+	{"frag-fanout-undefined-variable", false, func(n int) string { return "query Q { ...F0 } " + fanout(n, "Query", "search(n: $v) { __typename }") }},
+	{"frag-cycle-through-fields", false, func(n int) string {
+		var b strings.Builder
+		b.WriteString("query Q { pet { ...F0 } } ")
+		for i := 0; i < n; i++ {
+			b.WriteString("fragment F" + itoa2(i) + " on Pet { owner { pets { ...F" + itoa2((i+1)%n) + " } } } ")
+		}
+		return b.String()
+	}},
+	{"frag-cycle-direct", false, func(n int) string {
+		var b strings.Builder
+		b.WriteString("query Q { ...F0 } ")
+		for i := 0; i < n; i++ {
+			b.WriteString("fragment F" + itoa2(i) + " on Query { ...F" + itoa2((i+1)%n) + " ...F" + itoa2((i+2)%n) + " id } ")
+		}
+		return b.String()
+	}},
+	{"frag-chain", false, func(n int) string {
+		var b strings.Builder
+		b.WriteString("query Q { ...F0 } ")
+		for i := 0; i < n; i++ {
+			b.WriteString("fragment F" + itoa2(i) + " on Query { id ...F" + itoa2(i+1) + " } ")
+		}
+		b.WriteString("fragment F" + itoa2(n) + " on Query { id }")
+		return b.String()
+	}},
+	{"frag-unused-flood", false, func(n int) string {
+		var b strings.Builder
+		b.WriteString("query Q { id } ")
+		for i := 0; i < n; i++ {
+			b.WriteString("fragment U" + itoa2(i) + " on Query { id } ")
+		}
+		return b.String()
+	}},
+	{"deep-selection", false, func(n int) string {
+		return "query Q { person { " + rep("pets { owner { ", n) + "id" + rep(" } }", n) + " } }"
+	}},
+	{"deep-selection-overlap", false, func(n int) string {
+		d := "person { " + rep("pets { owner { ", n) + "id" + rep(" } }", n) + " }"
+		return "query Q { " + d + " " + d + " }"
+	}},
+	{"deep-inline-fragments", false, func(n int) string { return "query Q { " + rep("... on Query { ", n) + "id" + rep(" }", n) + " }" }},
+	{"wide-same-field", false, func(n int) string { return "query Q { pet { " + rep("id ", n) + "} }" }},
+	{"wide-same-alias", false, func(n int) string { return "query Q { pet { " + rep("a: id ", n) + "} }" }},
+	{"wide-alias-conflict", false, func(n int) string { return "query Q { pet { " + rep("a: id a: name ", n) + "} }" }},
+	{"wide-distinct-aliases", false, func(n int) string {
+		var b strings.Builder
+		b.WriteString("query Q { pet { ")
+		for i := 0; i < n; i++ {
+			b.WriteString("a" + itoa2(i) + ": id ")
+		}
+		b.WriteString("} }")
+		return b.String()
+	}},
+	{"wide-arguments-unknown", false, func(n int) string {
+		var b strings.Builder
+		b.WriteString("query Q { node(id: 1")
+		for i := 0; i < n; i++ {
+			b.WriteString(", x" + itoa2(i) + ": 1")
+		}
+		b.WriteString(") { id } }")
+		return b.String()
+	}},
+	{"wide-variables", false, func(n int) string {
+		var a, u strings.Builder
+		for i := 0; i < n; i++ {
+			a.WriteString("$v" + itoa2(i) + ": Int ")
+			u.WriteString("s" + itoa2(i) + ": search(n: $v" + itoa2(i) + ") { __typename } ")
+		}
+		return "query Q(" + a.String() + ") { " + u.String() + "}"
+	}},
+	{"wide-variables-unused", false, func(n int) string {
+		var a strings.Builder
+		for i := 0; i < n; i++ {
+			a.WriteString("$v" + itoa2(i) + ": Int ")
+		}
+		return "query Q(" + a.String() + ") { id }"
+	}},
+	{"wide-directives", false, func(n int) string { return "query Q { id" + rep(` @tag(name: "a")`, n) + " }" }},
+	{"wide-directives-nonrepeatable", false, func(n int) string { return "query Q { id" + rep(" @once", n) + " }" }},
+	{"wide-operations", false, func(n int) string {
+		var b strings.Builder
+		for i := 0; i < n; i++ {
+			b.WriteString("query Q" + itoa2(i) + " { id } ")
+		}
+		return b.String()
+	}},
+	{"wide-operations-same-name", false, func(n int) string { return rep("query Q { id } ", n) }},
+	{"nested-list-value", false, func(n int) string { return "query Q { list(xs: " + rep("[", n) + "1" + rep("]", n) + ") }" }},
+	{"nested-input-object", false, func(n int) string {
+		return "query Q { search(f: " + rep("{req: true, sub: ", n) + "{req: true}" + rep("}", n) + ") { __typename } }"
+	}},
+	{"nested-custom-scalar-value", false, func(n int) string { return "query Q { date(d: " + rep("{a: [", n) + "1" + rep("]}", n) + ") }" }},
+	{"wide-list-value", false, func(n int) string { return "query Q { search(ks: [" + rep("DOG, ", n) + "CAT]) { __typename } }" }},
+	{"wide-object-value-dup", false, func(n int) string {
+		return "query Q { search(f: {req: true" + rep(", name: \"a\"", n) + "}) { __typename } }"
+	}},
+	{"unknown-names-suggestions", false, func(n int) string {
+		var b strings.Builder
+		b.WriteString("query Q { ")
+		for i := 0; i < n; i++ {
+			b.WriteString("nam" + itoa2(i) + " ")
+		}
+		b.WriteString("}")
+		return b.String()
+	}},
+	{"subscription-wide", false, func(n int) string { return "subscription S { " + rep("tick ", n) + "}" }},
+	{"possible-spreads-wide", false, func(n int) string {
+		return "query Q { search { " + rep("... on Pet { id } ... on Person { id } ", n) + "} }"
+	}},
+}
+
+func fanout(n int, typ, leaf string) string { return fanoutVia(n, typ, "", "", leaf) }
+
+// fanoutVia: F0 … Fn-1 each spread the next one twice (2^n paths), Fn selects the leaf.
+func fanoutVia(n int, typ, open, close, leaf string) string {
+	var b strings.Builder
+	for i := 0; i < n; i++ {
+		nx := "...F" + itoa2(i+1)
+		b.WriteString("fragment F" + itoa2(i) + " on " + typ + " { " + open + " " + nx + " " + nx + " " + close + " } ")
+	}
+	b.WriteString("fragment F" + itoa2(n) + " on " + typ + " { " + leaf + " }")
+	return b.String()
+}
+
+func itoa2(i int) string {
+	if i == 0 {
+		return "0"
+	}
+	var d []byte
+	for i > 0 {
+		d = append([]byte{byte('0' + i%10)}, d...)
+		i /= 10
+	}
+	return string(d)
+}
